@@ -156,6 +156,11 @@ def req_reader(chunks):
     return "[3,[%s]]" % ",".join(sx(bytes(c)) for c in chunks)
 
 
+def req_reader_raising(chunks, raising):
+    """Fix/ReaderHooks.v: the reader whose dispatcher raises at the given (1-based) delivery numbers."""
+    return "[6,[%s],[%s]]" % (",".join(sx(bytes(c)) for c in chunks), ",".join(str(int(n)) for n in sorted(raising)))
+
+
 class _ReaderConn:
     pass
 
